@@ -44,7 +44,7 @@ struct Seg {                // one segment of the format string
     int32_t prec = -1;
     uint32_t index = 0;     // &N (0 = sequential)
 };
-enum SinkKind : uint8_t { SK_COOKIE = 0, SK_OS8, SK_OSW, SK_OS16, SK_OS32, SK_INS8, SK_INSW, SK_INS16, SK_INS32, SK_EXT8, SK_EXTW, SK_LATIN1, SK_STDOUT, SK__COUNT };
+enum SinkKind : uint8_t { SK_COOKIE = 0, SK_OS8, SK_OSW, SK_OS16, SK_OS32, SK_INS8, SK_INSW, SK_INS16, SK_INS32, SK_EXT8, SK_EXTW, SK_LATIN1, SK_STDOUT, SK_FORMAT_V, SK__COUNT };
 const char *sink_name(int k);
 struct SinkCfg {
     uint8_t kind = SK_COOKIE;
